@@ -6,14 +6,3 @@ From RecordUpdate Require Import RecordSet.
 Import RecordSetNotations.
 Open Scope N_scope.
 
-(** finding D: [--opt] (Set) + a positional with allow_hyphen_values;
-    [complete(["p","--opt","--unknown",""], 3)] reaches the [unreachable!] of [parse_positional] *)
-Definition s_opt : bytes := [111; 112; 116].
-Definition d_cmd : cmd :=
-  (cmd_new [112])
-    <| c_args := [ (arg_new s_opt) <| a_long := Some s_opt |> <| a_action := Some ASet |>;
-                   (arg_new [112; 111; 115]) <| a_hyphen := true |> ] |>.
-Definition d_args : list bytes := [[112]; [45; 45; 111; 112; 116]; [45; 45; 117; 110; 107]; []].
-
-Lemma total_refuted : exists tbl c args i site, complete_model tbl c args i = CPanic site.
-Proof. exists [], d_cmd, d_args, 3, 664. vm_compute. reflexivity. Qed.
